@@ -48,20 +48,25 @@ func Send(rw io.ReadWriter, streamData *stream.Info, ws bool, version stream.Ver
 		return err
 	}
 
-	if id != "" {
-		_, err = fmt.Fprintf(b, " id='%s'", id)
+	// Addresses may contain any of the XML special characters (a resourcepart
+	// can be "o'brien" or "a<b"), so the attribute values must be escaped.
+	for _, attr := range []struct{ name, value string }{
+		{"id", id},
+		{"to", to},
+		{"from", from},
+	} {
+		if attr.value == "" {
+			continue
+		}
+		_, err = fmt.Fprintf(b, " %s='", attr.name)
 		if err != nil {
 			return err
 		}
-	}
-	if to != "" {
-		_, err = fmt.Fprintf(b, " to='%s'", to)
+		err = xml.EscapeText(b, []byte(attr.value))
 		if err != nil {
 			return err
 		}
-	}
-	if from != "" {
-		_, err = fmt.Fprintf(b, " from='%s'", from)
+		_, err = b.Write([]byte("'"))
 		if err != nil {
 			return err
 		}
